@@ -29,6 +29,13 @@ def r_leg_ident(ck: Checker) -> None:
                         ck.holds("R-LEG-IDENT", f, c, what, comparison=norm(c))
                     else:
                         ck.violation("R-LEG-IDENT", f, c, what, construct=f"{q}: {norm(c)} compares nodes by value")
+    for q in ("is_ancestor", "get_depth"):
+        f = ck.repo.func(LNODE, f"{CLS}.{q}")
+        for c in walk_body(f.node.body):
+            if isinstance(c, ast.Compare) and len(c.ops) == 1 and isinstance(c.ops[0], (ast.In, ast.NotIn)) and "ancestors()" in norm(c.comparators[0]):
+                n += 1
+                ck.violation("R-LEG-IDENT", f, c, "legacy upward queries compare nodes by identity (legacy nodes have a structural __eq__: twins are ==)",
+                             construct=f"{q}: {norm(c)} is a membership test (==): an equal twin elsewhere in the tree counts as an ancestor")
     if n < 2:
         ck.incomplete("R-LEG-IDENT", None, None, f"only {n} node comparisons found (2 expected)")
     a = ck.repo.func(LNODE, f"{CLS}.ancestors")
